@@ -407,6 +407,10 @@ func famPlan(tr *Trace, scratch string, seed int64, tier string, workers int) M 
 			es := []Entry{{Type: sh.typ, Src: sh.src, Dst: s}}
 			add("spell", "deb", false, 0o22, 1600000000, "MC", root, es)
 			nSpell++
+			if sh.typ == "file" { // the same with globbing disabled: the source is taken literally, the destination rules are the same
+				add("spell", "deb", true, 0o22, 1600000000, "MC", root, es)
+				nSpell++
+			}
 		}
 	}
 	// two-entry spellings: the same path spelled two ways must collide
